@@ -82,34 +82,20 @@ impl Tracker<'_> {
 pub fn exercise_file(bytes: &[u8], out: &mut Outcome) {
     let len = bytes.len();
     let mut t = Tracker { out, len, deep: false };
-    t.run("FlacSampleReader::read_to_end", || {
-        let d = codec::decode_with(SegReader::new(bytes.to_vec()), ReaderKind::SampleToEnd, 4096)?;
-        match d.err {
-            Some(e) if d.samples.is_empty() => Err(e),
-            _ => Ok(d.samples.len() as u64),
-        }
-    });
-    t.run("FlacChannelReader", || {
-        let d = codec::decode_with(SegReader::new(bytes.to_vec()), ReaderKind::Channel, 0)?;
-        match d.err {
-            Some(e) if d.samples.is_empty() => Err(e),
-            _ => Ok(d.samples.len() as u64),
-        }
-    });
-    t.run("FlacByteReader<BE>", || {
-        let d = codec::decode_with(SegReader::new(bytes.to_vec()), ReaderKind::ByteBE, 7)?;
-        match d.err {
-            Some(e) if d.samples.is_empty() => Err(e),
-            _ => Ok(d.samples.len() as u64),
-        }
-    });
-    t.run("FlacSampleIterator", || {
-        let d = codec::decode_with(SegReader::new(bytes.to_vec()), ReaderKind::SampleIter, 0)?;
-        match d.err {
-            Some(e) if d.samples.is_empty() => Err(e),
-            _ => Ok(d.samples.len() as u64),
-        }
-    });
+    for (what, kind, rs) in [
+        ("FlacSampleReader::fill_buf", ReaderKind::Sample, 0usize),
+        ("FlacChannelReader", ReaderKind::Channel, 0),
+        ("FlacByteReader<BE>", ReaderKind::ByteBE, 7),
+        ("FlacSampleIterator", ReaderKind::SampleIter, 0),
+    ] {
+        t.run(what, || {
+            let (n, err) = codec::drain_with(SegReader::new(bytes.to_vec()), kind, rs)?;
+            match err {
+                Some(e) if n == 0 => Err(e),
+                _ => Ok(n),
+            }
+        });
+    }
     t.run("verify_reader", || verify_reader(SegReader::new(bytes.to_vec())).map(|_| 1).map_err(|e| e.to_string()));
     t.run("FrameIterator+Subframe::decode", || {
         let it = FrameIterator::new(SegReader::new(bytes.to_vec())).map_err(|e| e.to_string())?;
